@@ -26,7 +26,7 @@ impl Check for C03 {
         "case = random EBNF grammar with %grammar_type 'lalr(1)' (left recursion and recursive start symbols allowed, <=6 non-terminals, <=7 terminals) x 10 inputs (sentences, mutants with foreign tokens, random strings; decorated with whitespace/comments); domain = grammars for which parol builds a table without error and without resolved conflicts; a panic anywhere in the pipeline is a violation; parser verdict must equal the chart recogniser's verdict on the scanner's token sequence; on success tree and action trace must be a derivation: root = start symbol of the (augmented) grammar, every inner node one production, reductions = post-order of inner nodes (reverse rightmost derivation) each once with its children, leaves = all tokens. Evaluations = parser runs. Non-trivial = grammar that is left-recursive or uses its start symbol on a right-hand side, input with >= 2 tokens; distinct by (grammar, input)".into()
     }
     fn strategy(&self, tier: Tier) -> BoxedStrategy<ParseCase> {
-        lr_case_strategy(tier, 10)
+        parse_case_strategy_la(tier_params(tier, GenParams::lr()), true, 10)
     }
     fn cases(&self, tier: Tier) -> u32 {
         tier.pick(8000, 150000)
@@ -71,6 +71,9 @@ impl Check for C03 {
             st.class("left_recursive");
         }
         st.class("accepted_conflict_free");
+        if r.ig.terms.iter().any(|t| t.lookahead.is_some()) {
+            st.class("grammar_with_lookahead_variants_of_a_terminal");
+        }
         let comments = !case.grammar.initial.line_comments.is_empty();
         for inp in &case.inputs {
             let text = inp.render(&r.ig.terms, comments);
